@@ -6,12 +6,16 @@
 package main
 
 import (
+	"context"
 	"fmt"
 	"io"
 	"os"
 	"path/filepath"
 	"sort"
+	"sync"
+	"time"
 
+	"github.com/containerd/containerd/v2/core/snapshots"
 	"verif/harness/hx"
 	"verif/harness/snapx"
 )
@@ -20,11 +24,19 @@ type Case struct {
 	Async bool       `json:"async"`
 	Pre   []snapx.Op `json:"pre"`
 	Crash snapx.Op   `json:"crash"`
-	KSeed int        `json:"kseed"` // marker taken = KSeed mod (markers hit)
-	NR    bool       `json:"nr"`
-	Allow bool       `json:"allow"`
-	MBad  []int      `json:"mbad,omitempty"`
-	Ops   []snapx.Op `json:"ops"` // post-crash ops (shrinkable)
+	// Race: the last call of Pre (a Prepare/View) is held between the rename of its directory and the commit of its
+	// write transaction while a concurrent Cleanup is started; bolt's single-writer rule makes that Cleanup wait, so
+	// the outcome equals "that call; Cleanup" (what the model is given).
+	Race bool `json:"race,omitempty"`
+	// Partial: the process dies INSIDE the os.RemoveAll of a directory cleanup (marker cleanupdir.unmounted is
+	// taken): 1 = the children (fs, work) are gone, the directory itself is left; 2 = only work is gone; 3 = only fs
+	// is gone. For the model such a directory simply still exists.
+	Partial int        `json:"partial,omitempty"`
+	KSeed   int        `json:"kseed"` // marker taken = KSeed mod (markers hit)
+	NR      bool       `json:"nr"`
+	Allow   bool       `json:"allow"`
+	MBad    []int      `json:"mbad,omitempty"`
+	Ops     []snapx.Op `json:"ops"` // post-crash ops (shrinkable)
 	// observed
 	Order  []int         `json:"order,omitempty"`
 	K      int           `json:"k"`
@@ -91,8 +103,39 @@ func run(c *Case) []snapx.Problem {
 		panic(fmt.Sprintf("NewSnapshotter on a fresh root failed: %v", err))
 	}
 	defer m.Destroy()
-	for _, o := range c.Pre {
-		m.Do(o)
+	for i, o := range c.Pre {
+		if !(c.Race && i == len(c.Pre)-1 && (o.Op == "prepare" || o.Op == "view")) {
+			m.Do(o)
+			continue
+		}
+		reached, resume, done := make(chan struct{}), make(chan struct{}), make(chan struct{})
+		var once sync.Once
+		held := false
+		m.SetHook(func(point string, _ *snapx.Machine) {
+			if point == "create.renamed" {
+				once.Do(func() { held = true; close(reached); <-resume })
+			}
+		})
+		go func() { m.Do(o); close(done) }()
+		select {
+		case <-reached:
+		case <-done:
+		}
+		cdone := make(chan error, 1)
+		if held {
+			go func() { cdone <- m.SN.(snapshots.Cleaner).Cleanup(context.Background()) }()
+			select {
+			case err := <-cdone: // only possible when Cleanup does not wait for the open write transaction
+				cdone <- err
+			case <-time.After(30 * time.Millisecond):
+			}
+			close(resume)
+			<-done
+		} else {
+			cdone <- m.SN.(snapshots.Cleaner).Cleanup(context.Background())
+		}
+		<-cdone
+		m.SetHook(nil)
 	}
 	problems = append(problems, m.Problems...)
 	m.Problems = nil
@@ -100,8 +143,12 @@ func run(c *Case) []snapx.Problem {
 	preIDs := m.IDOf()
 	// ---- the crashing op: every marker copies the root ----
 	var points []string
-	m.SetHook(func(point string, _ *snapx.Machine) {
+	pointDir := map[int]int{} // marker index -> id of the directory being cleaned (cleanupdir.unmounted)
+	m.SetHook(func(point string, mm *snapx.Machine) {
 		copyTree(root, filepath.Join(imgBase, fmt.Sprintf("%d", len(points))))
+		if point == "cleanupdir.unmounted" {
+			pointDir[len(points)] = mm.FS.LastUnmountID()
+		}
 		points = append(points, point)
 	})
 	out := m.Do(c.Crash)
@@ -123,9 +170,30 @@ func run(c *Case) []snapx.Problem {
 		return problems
 	}
 	c.K = c.KSeed % c.Total
+	if c.Partial > 0 && !c.NR {
+		var cand []int
+		for i, p := range points {
+			if p == "cleanupdir.unmounted" && pointDir[i] >= 0 {
+				cand = append(cand, i)
+			}
+		}
+		if len(cand) > 0 {
+			c.K = cand[c.KSeed%len(cand)]
+		}
+	}
 	c.Point = points[c.K]
 	// ---- restart on the copy ----
 	img := filepath.Join(imgBase, fmt.Sprintf("%d", c.K))
+	if id, ok := pointDir[c.K]; ok && id >= 0 && c.Partial > 0 && !c.NR {
+		// killed inside os.RemoveAll(<id>): part of the directory's content is already gone
+		d := filepath.Join(img, "snapshots", fmt.Sprintf("%d", id))
+		if c.Partial == 1 || c.Partial == 2 {
+			os.RemoveAll(filepath.Join(d, "work"))
+		}
+		if c.Partial == 1 || c.Partial == 3 {
+			os.RemoveAll(filepath.Join(d, "fs"))
+		}
+	}
 	bad := map[int]bool{}
 	for _, x := range c.MBad {
 		bad[x] = true
@@ -291,6 +359,14 @@ func coqOps(ops []snapx.Op) string {
 	return hx.CoqList(s)
 }
 
+// modelPre: the history the model is given: a raced call is followed by the Cleanup that had to wait for it.
+func modelPre(c Case) []snapx.Op {
+	if n := len(c.Pre); c.Race && n > 0 && (c.Pre[n-1].Op == "prepare" || c.Pre[n-1].Op == "view") {
+		return append(append([]snapx.Op{}, c.Pre...), snapx.Op{Op: "cleanup", Parent: -1, L: snapx.NoLabels})
+	}
+	return c.Pre
+}
+
 func coqCase(c Case) string {
 	ev := make([]string, len(c.Events))
 	for i, e := range c.Events {
@@ -301,7 +377,7 @@ func coqCase(c Case) string {
 		outs[i] = o.Coq()
 	}
 	return fmt.Sprintf("(mkCase %s %s (%s) %s %d %s %s %s %s %d %d %s %s %s %s)",
-		hx.CoqBool(c.Async), coqOps(c.Pre), c.Crash.Coq(), hx.CoqNatList(c.Order), c.K,
+		hx.CoqBool(c.Async), coqOps(modelPre(c)), c.Crash.Coq(), hx.CoqNatList(c.Order), c.K,
 		hx.CoqBool(c.NR), hx.CoqBool(c.Allow), hx.CoqNatList(c.MBad), coqOps(c.Ops),
 		c.Total, pointCode[c.Point], hx.CoqBool(c.OK), hx.CoqList(ev), c.View.Coq(), hx.CoqList(outs))
 }
@@ -329,6 +405,12 @@ func gen(r *hx.Rng) Case {
 		c.Crash = snapx.Op{Op: "close", Parent: -1, L: snapx.NoLabels}
 	}
 	c.KSeed = r.Intn(1000)
+	if n := len(c.Pre); n > 0 && (c.Pre[n-1].Op == "prepare" || c.Pre[n-1].Op == "view") && r.Chance(1, 3) {
+		c.Race = true
+	}
+	if (c.Crash.Op == "close" || c.Crash.Op == "remove" || c.Crash.Op == "cleanup") && r.Chance(1, 2) {
+		c.Partial = r.Range(1, 3)
+	}
 	c.NR = r.Chance(1, 5)
 	c.Allow = r.Bool()
 	if r.Chance(1, 3) {
@@ -444,6 +526,22 @@ func main() {
 		corpus = append(corpus, Case{Pre: chain, Crash: snapx.Op{Op: "close", Parent: -1, L: N}, KSeed: 3 + 4*k, NR: true,
 			Ops: []snapx.Op{cleanup, {Op: "update", Name: 1, Parent: -1, L: snapx.Labels{T: -1, U: 2}},
 				{Op: "commit", Name: 6, Key: 2, Parent: -1, L: N}, {Op: "prepare", Key: 7, Parent: 2, L: N, MOK: true}, cleanup}})
+	}
+	// killed inside the RemoveAll of Close / Remove / Cleanup: directory left without (part of) its content
+	for k := 0; k < 6; k++ {
+		corpus = append(corpus, Case{Pre: chain, Crash: snapx.Op{Op: "close", Parent: -1, L: N}, KSeed: k, Partial: 1 + k%3, Allow: k >= 3,
+			Ops: []snapx.Op{cleanup, {Op: "mounts", Key: 3, Parent: -1, L: N}, {Op: "prepare", Key: 6, Parent: 2, L: N, MOK: true}}})
+	}
+	for k := 0; k < 3; k++ {
+		corpus = append(corpus, Case{Pre: chain, Crash: snapx.Op{Op: "remove", Key: 3, Parent: -1, L: N}, KSeed: k, Partial: 1 + k,
+			Ops: []snapx.Op{{Op: "prepare", Key: 3, Parent: 2, L: N, MOK: true}, cleanup}})
+	}
+	// a Cleanup racing a createSnapshot that sits between rename and commit, then a crash of a later call, restart:
+	// the snapshot that call acknowledged must have its directory
+	for k := 0; k < 3; k++ {
+		pre := append(append([]snapx.Op{}, chain...), snapx.Op{Op: "prepare", Key: 4, Parent: 2, L: L(5), MOK: k != 1})
+		corpus = append(corpus, Case{Pre: pre, Race: true, Crash: snapx.Op{Op: "prepare", Key: 6, Parent: 5 - 3*(k%2), L: N, MOK: true}, KSeed: 3 + k,
+			Ops: []snapx.Op{cleanup, {Op: "mounts", Key: 6, Parent: -1, L: N}, {Op: "stat", Name: 5, Parent: -1, L: N}}})
 	}
 	// crash inside the very first createSnapshot: Cleanup must reclaim the temp / orphan directory (fixed finding F61)
 	for k := 0; k < 3; k++ {
